@@ -39,6 +39,23 @@ pub fn decode(mut src: &[u8]) -> io::Result<Vec<u8>> {
 
             last_len = record.len;
 
+            // A record has at least one quality score and cannot extend past the end of the
+            // output.
+            if record.len == 0 || record.len > uncompressed_size - i {
+                return Err(io::Error::new(
+                    io::ErrorKind::InvalidData,
+                    "invalid record length",
+                ));
+            }
+
+            // A duplicate is a copy of the previous record, which must have the same length.
+            if record.is_duplicate && record.len > i {
+                return Err(io::Error::new(
+                    io::ErrorKind::InvalidData,
+                    "invalid duplicate record",
+                ));
+            }
+
             if record.is_duplicate {
                 copy_record(&mut dst, i, record.len);
 
